@@ -17,8 +17,13 @@ class GetSetDelAttrMixin(object):
     __metadata_exclude__ = [] # do not add to attrs
     __metadata_include__ = [] 
 
+    @classmethod
+    def _is_class_member(cls, name):
+        " attribute of the class or of its bases (hasattr(cls, ...) would also see those of the metaclass, such as 'mro') "
+        return any(name in vars(c) for c in cls.__mro__)
+
     def __getattr__(self, name):
-        if hasattr(self.__class__, name):
+        if self._is_class_member(name):
             return object.__getattribute__(self, name)
         elif name not in self.__metadata_include__ \
                 and (name.startswith('_') or name in self.__metadata_exclude__):
@@ -33,7 +38,7 @@ class GetSetDelAttrMixin(object):
         if name not in self.__metadata_include__ and \
                 (name.startswith('_') \
                  or name in self.__metadata_exclude__ \
-                 or hasattr(self.__class__, name)):
+                 or self._is_class_member(name)):
             object.__setattr__(self, name, value) # do nothing special
         elif hasattr(type(self), 'axes') and name in self.dims:
             self.axes[name][()] = value # modify axis values
@@ -43,7 +48,7 @@ class GetSetDelAttrMixin(object):
     def __delattr__(self, name):
         if not name.startswith('_') \
                 and name not in self.__metadata_exclude__ \
-                and not hasattr(self.__class__, name) \
+                and not self._is_class_member(name) \
                 and name in self.attrs.keys():
             del self.attrs[name]
         else:
